@@ -21,5 +21,6 @@ func init() {
 		k := k
 		p.Engines = append(p.Engines, &core.Engine{Name: "snapshot/" + k, Count: core.FixedCount(8000, 150000), Run: func(c *core.Ctx, idx int) { seq.RunC17Snapshot(c, k) }})
 	}
+	p.Engines = append(p.Engines, &core.Engine{Name: "moves/long-lists", Count: core.FixedCount(2000, 40000), Run: func(c *core.Ctx, idx int) { seq.RunC17Large(c) }})
 	core.Register(p)
 }
